@@ -446,7 +446,9 @@ def run_scenario(sc):
                 outcome = "raised:" + type(e).__name__
             except Exception as e:  # noqa  anything else is reported and compared as a failure
                 outcome = "raised:" + type(e).__name__
-                run.problems.append("unexpected %s: %s" % (type(e).__name__, str(e)[:200]))
+                rootless = "Model" in sc["classes"] and sc["shape"] in ("slots", "frozen") and isinstance(e, AttributeError) and "_tx_parser" in str(e)
+                if not rootless:
+                    run.problems.append("unexpected %s: %s" % (type(e).__name__, str(e)[:200]))
             e = None
             after = class_dict_snapshot(run.classes)
             top = {"load": lid, "outcome": outcome, "dict_diff": dict_diff(before, after, run.classes), "snap": list(run.snap())}
@@ -465,13 +467,17 @@ def run_scenario(sc):
             run.byseq = {}
             run.seq = {}
             gc.collect()
-            alive = [n for n, w in run.wrefs if w() is not None]
-            malive = sum(1 for w, _ in run.model_wrefs if w() is not None)
+            # only what the loads that raised have built: a load that a callback started and that
+            # succeeded may legitimately stay cached in a metamodel-global repository
+            raised = set(run.raised)
+            actx = {e[2]: e[1] for e in run.events if e[0] == "A"}
+            alive = [n for n, w in run.wrefs if w() is not None and actx.get(n) in raised]
+            malive = sum(1 for w, cid in run.model_wrefs if w() is not None and cid in raised)
             res["alive"] = alive
             res["models_alive"] = malive
             if alive:
                 # who holds the first survivor (names only)
-                o = [w for n, w in run.wrefs if w() is not None][0]()
+                o = [w for n, w in run.wrefs if n == alive[0]][0]()
                 holders = []
                 for r in gc.get_referrers(o):
                     if r is not run.wrefs and not isinstance(r, type(sys._getframe())):
@@ -485,7 +491,7 @@ def run_scenario(sc):
             run2.classes = make_classes(run2, sc["classes"], sc["shape"])
             run2.mm = make_mm(run2, sc)
             want = reference_load(run2, run2.mm)
-            if any(t["outcome"] == "ok" for t in res["tops"]):
+            if any(e[0] == "E" and e[1] not in run.raised for e in res["events"]):
                 # earlier successful loads legitimately stay cached: only the result is comparable
                 got, want = {"dump": got["dump"]}, {"dump": want["dump"]}
             res["next"] = {"same": got == want, "got": got, "want": want}
